@@ -494,6 +494,36 @@ def c15_in_model(r, seed, tier, model_ok):
             dict(outcomes=dict(dist), shapes=dict(shapes), error_classes=dict(errs)),
             "generated directory trees of module files x importing programs (both routes, repeated, nested, under try, bad modules): result / error with spans and the complete event trace, interpreter on real files vs run_main_fs of the model", bad)
 
+def main_many(r, seed, tier, model_ok):
+    """main.main on texts holding SEVERAL expressions (1-5), with format_io off and on: one evaluation per expression, one after the other in one
+    process - input consumed and output written by an earlier expression are gone for the later ones, a module imported by an earlier expression is
+    the same (already evaluated) object for a later one, the first failure ends the run; against Machine.run_main_many (each expression started in
+    the heap and world the previous one left; Refine4.machine_implements_spec_many): printed values, error with location, output, input left and
+    the event trace of every evaluation"""
+    if not model_ok: return
+    import slices_core
+    R = random.Random(seed * 7919 + 0xC20 + 77); cases = []; shapes = collections.Counter()
+    base, _ = slices_core.gen_programs(R, N(tier, 300, 4000))
+    FILES = {"ㄴ/ㄷ.txt": "ㄱㅇㄱ ㄱㅇㄱ ㄱㅎㄷ ㅎ".encode(), "ㄹ": "ㄴ ㄷ ㄹ ㅁㄹㅎㄹ".encode(), "ㅁ": "ㄴ ㅁㅈㅎㄴ ㅈㄹㅎㄴ".encode(), "two": "ㄱ ㄴ".encode(), "ㅂㄱ": "ㄴ ㄱ ㄴㄴㅎㄷ".encode()}
+    IMPS = ["(ㄴ ㄷ ㅂㅎㄷ)", "(ㄹ ㅂㅎㄴ)", "(ㅁ ㅂㅎㄴ)", f"({st('ㄹ')} ㅂㅎㄴ)", f"({st('./ㄴ/ㄷ.txt')} ㅂㅎㄴ)", "(ㄷ (ㄴ ㄷ ㅂㅎㄷ) ㅎㄴ)", "((ㄹ ㅂㅎㄴ) ㅈㄷㅎㄴ)", f"({st('two')} ㅂㅎㄴ)", "(ㅂㄱ ㅂㅎㄴ)", "(ㅈ ㅂㅎㄴ)",
+            "((ㄴ ㄷ ㅂㅎㄷ) (ㄴ ㄷ ㅂㅎㄷ) ㄴㅎㄷ)", "((ㅂㄱ ㅂㅎㄴ) (ㄱ ㅎ) ㅅㄷㅎㄷ)"]
+    for _ in range(N(tier, 500, 8000)):
+        k = R.randrange(1, 6); parts = []; files = None; sh = R.random()
+        for _ in range(k):
+            c = R.random()
+            if sh < .35: parts.append(" ".join(R.choice(base)["words"]) if c < .8 else E(R.randrange(9)))
+            elif sh < .7:
+                if c < .6: t_, _, _ = slices_core.io_text_closed(R, R.randrange(1, 4)); parts.append(t_)
+                else: parts.append(" ".join(R.choice(base)["words"]))
+            else:
+                files = FILES; parts.append(R.choice(IMPS) if c < .7 else " ".join(R.choice(base)["words"]))
+        cases.append(dict(text=R.choice([" ", "\n", "  \n "]).join(parts), many=True, fio=R.random() < .4, files=files, stdin=[R.choice(["a", "", "bc"]) for _ in range(R.randrange(0, 5))]))
+        shapes["pure" if sh < .35 else "io" if sh < .7 else "imports"] += 1; shapes[f"expressions:{k}"] += 1
+    cases += [dict(text="", many=True), dict(text="ㄴ ㄷ ㅎㄹ", many=True), dict(text="ㄴ\nㄷ ㅎㅁ", many=True, stdin=["a"])]
+    a = impl_run(cases); b = model_run(cases, tlimit=10); dist, bad = compare(cases, a, b)
+    r.slice("main_on_several_expressions", len(cases), len({c["text"] for c in cases}), [cases[0]["text"][:200], cases[1]["text"][:200]], dict(outcomes=dict(dist), shapes=dict(shapes)),
+            "texts of 1-5 expressions (pure, I/O sharing one input, imports of the same module files) through main.main - both format_io settings - vs Machine.run_main_many: printed values / first failure with its location, output, input left, every evaluation's event trace", bad)
+
 def c20_isolation(r, seed, tier, model_ok):
     """(a) sequences of programs (pure, throwing, dictionary-heavy, I/O with canned stdin, importing; plus NEAR-COPIES of each other laid out on
     the same lines, so that every per-position / per-line memo would be shared) evaluated in ONE process in several orders and with
